@@ -159,6 +159,7 @@ type RStep struct {
 	Par      bool `json:"par,omitempty"`      // feed and go on without waiting for the reply (the next steps of OTHER connections overlap it)
 	Cut      int  `json:"cut,omitempty"`      // drop this many octets from the end of the encoded body (the header announces the shortened length)
 	CKey     BS   `json:"ckey,omitempty"`     // the key THE CLIENT obfuscates with (default: whatever key the server bound the connection to)
+	Pre      BS   `json:"pre,omitempty"`      // proxy scenarios: octets sent before the packet (the PROXY line, well-formed or hostile)
 }
 type RConn struct {
 	C    int    `json:"c"`
@@ -174,6 +175,7 @@ type RScen struct {
 	LogOn   bool    `json:"log,omitempty"`     // record logger calls (C18)
 	Pre     []RCfg  `json:"pre,omitempty"`     // configurations the same loader was given before this one (reload history)
 	Level   int     `json:"level,omitempty"`   // unused by CapLog (all calls are recorded)
+	Proxy   bool    `json:"proxy,omitempty"`   // the connections of this scenario go to a second real server started with SetUseProxy(true)
 }
 
 func (p *RPkt) encode() []byte {
@@ -458,6 +460,8 @@ type refRun struct {
 	sysRd   *bufio.Reader
 	lastCh  chanCfg // the configuration channel of the loader built last
 	mirLn   *net.TCPListener
+	lisP    *FakeListener
+	doneP   chan struct{}
 }
 
 type refConnState struct {
@@ -626,11 +630,21 @@ func (r *refRun) start() {
 		r.srv.Serve(ctx, r.lis)
 		close(r.done)
 	}()
+	// the same wiring once more with the proxy option on (scenarios with "proxy": true)
+	r.lisP = NewFakeListener(nil)
+	srvP := tq.NewServer(r.log, r, tq.SetUseProxy(true))
+	r.doneP = make(chan struct{})
+	go func() {
+		srvP.Serve(ctx, r.lisP)
+		close(r.doneP)
+	}()
 }
 func (r *refRun) stop() {
 	r.cancel()
 	r.lis.Kick()
+	r.lisP.Kick()
 	<-r.done
+	<-r.doneP
 }
 
 // sidFor: the session id an abstract session number stands for. Numbers below 1000 share the pool of four ids (so that
@@ -683,7 +697,11 @@ func (r *refRun) open(c int, addr string, extra E) *refConnState {
 		ev[k] = v
 	}
 	r.rec.Emit(ev)
-	r.lis.Offer(conn)
+	if r.curScen != nil && r.curScen.Proxy {
+		r.lisP.Offer(conn)
+	} else {
+		r.lis.Offer(conn)
+	}
 	conn.WaitQuiesce()
 	return st
 }
@@ -736,7 +754,7 @@ func (r *refRun) feed0(st *refConnState, s *RStep, i int) bool {
 		pws = append(pws, B(p))
 	}
 	r.rec.Emit(E{"e": "feed", "c": st.c, "i": i, "h": B(hdr), "b": B(wire), "cb": B(body), "sk": B(st.key), "ck": B(ck), "pws": pws})
-	st.conn.Feed(append(append([]byte{}, hdr...), wire...))
+	st.conn.Feed(append(append(append([]byte{}, s.Pre...), hdr...), wire...))
 	if s.Hold || s.HoldSink || s.Par {
 		return false // the caller waits for the gate / for all overlapping requests, not for quiescence
 	}
